@@ -420,3 +420,30 @@ Definition ok_enum_conflict (c : bool * list string * list (string * list string
   let '(always, types, enums, obs) := c in
   list_eqb Bool.eqb (map snd (resolve always types enums)) obs.
 Definition mismatches_enum_conflict := mismatches ok_enum_conflict.
+
+(** * C06: CombineOperationParameters *)
+From V Require Import Model.Combine.
+(** a case: path-level and operation-level parameters as (location, name, declaration number) and the combined
+    list the implementation returned (None = error) *)
+Definition tparam (q : string * string * nat) : (string * string) * nat := let '(i, n, k) := q in ((i, n), k).
+Definition ok_combine (c : list (string * string * nat) * list (string * string * nat) * option (list (string * string * nat))) : bool :=
+  let '(g, l, obs) := c in
+  let peq (a b : (string * string) * nat) := key_eqb (fst a) (fst b) && Nat.eqb (snd a) (snd b) in
+  match combine_params (map tparam g) (map tparam l), obs with
+  | Some o, Some x => list_eqb peq o (map tparam x)
+  | None, None => true
+  | _, _ => false
+  end.
+Definition mismatches_combine := mismatches ok_combine.
+
+(** * C20: the legacy -import-mapping flag (pkg/util.ParseCommandlineMap) *)
+From V Require Import Model.CmdMap.
+(** a case: the flag value and the parsed map sorted by key (None = rejected); inputs have pairwise different keys *)
+Definition ok_cmdmap (c : string * option (list (string * string))) : bool :=
+  let '(s, obs) := c in
+  match parse_map s, obs with
+  | Some m, Some o => list_eqb pair_eqb (sort_pairs m) o
+  | None, None => true
+  | _, _ => false
+  end.
+Definition mismatches_cmdmap := mismatches ok_cmdmap.
